@@ -63,11 +63,13 @@ func c12Source(mods []c12Mod, i int) string {
 	return sb.String()
 }
 
-func c12Driver(mods []c12Mod, steps int, topImports []int) string {
+func c12Driver(mods []c12Mod, steps int, topImports []int, stride int) string {
 	var sb strings.Builder
 	sb.WriteString(sim.Prelude)
 	sb.WriteString("h := import(\"host\")\nh.arr[0] += 1\nh.map.k += 1\nlog(\"h\", h.arr[0], h.map.k)\n")
 	for _, k := range topImports {
+		// an import of the same module earlier in the same function scope that may or may not execute
+		fmt.Fprintf(&sb, "try { if choose(5) > 2 { p%d := import(%q); log(\"pre\", %d, p%d.inc()) } } catch e { log(\"prefail\", %d, e.Message) }\n", k, mods[k].name, k, k, k)
 		fmt.Fprintf(&sb, "try { t%d := import(%q); log(\"top\", %d, t%d.inc()) } catch e { log(\"topfail\", %d, e.Message) }\n", k, mods[k].name, k, k, k)
 	}
 	sb.WriteString("imps := [\n")
@@ -76,7 +78,7 @@ func c12Driver(mods []c12Mod, steps int, topImports []int) string {
 	}
 	sb.WriteString("]\n")
 	fmt.Fprintf(&sb, "for step := 0; step < %d; step++ {\n", steps)
-	fmt.Fprintf(&sb, "\tk := (choose(0) * 4 + choose(1)) %% %d\n", len(mods))
+	fmt.Fprintf(&sb, "\tk := (choose(0) * 4 + choose(1) + step * %d) %% %d\n", stride, len(mods))
 	sb.WriteString("\tvia := choose(2)\n\tact := choose(3)\n\tif choose(4) > 2 { act = act + 4 }\n\ttry {\n\t\tm := undefined\n\t\tif via > 1 { m = call(imps[k]) } else { m = imps[k]() }\n")
 	sb.WriteString("\t\tr := undefined\n\t\tif act == 0 || act == 7 { r = m.inc() } else if act == 1 || act == 6 { r = m.get() } else if act == 2 { r = m.depinc() } else if act == 3 { r = m.lazy() } else if act == 4 { r = m.hinc() } else { h.arr[1] += 1; r = h.arr[1] }\n")
 	sb.WriteString("\t\tlog(\"step\", k, act, r)\n\t} catch e {\n\t\tlog(\"fail\", k, e.Message)\n\t}\n}\nreturn \"done\"\n")
@@ -170,9 +172,16 @@ func (m *c12Model) act(k, act int) (int, bool) {
 	}
 }
 
-func (m *c12Model) run(steps int, topImports []int) sim.Outcome {
+func (m *c12Model) run(steps int, topImports []int, stride int) sim.Outcome {
 	m.hist = append(m.hist, "s:\"h\" i:2 i:8")
 	for _, k := range topImports {
+		if m.choose(5) > 2 {
+			if r, ok := m.act(k, 0); ok {
+				m.hist = append(m.hist, fmt.Sprintf("s:\"pre\" i:%d i:%d", k, r))
+			} else {
+				m.hist = append(m.hist, fmt.Sprintf("s:\"prefail\" i:%d s:%q", k, m.failMsg))
+			}
+		}
 		if r, ok := m.act(k, 0); ok {
 			m.hist = append(m.hist, fmt.Sprintf("s:\"top\" i:%d i:%d", k, r))
 		} else {
@@ -180,7 +189,7 @@ func (m *c12Model) run(steps int, topImports []int) sim.Outcome {
 		}
 	}
 	for s := 0; s < steps; s++ {
-		k := (m.choose(0)*4 + m.choose(1)) % len(m.mods)
+		k := (m.choose(0)*4 + m.choose(1) + s*stride) % len(m.mods)
 		m.choose(2)
 		act := m.choose(3)
 		if m.choose(4) > 2 {
@@ -225,6 +234,13 @@ func recModule(get func() *sim.World) map[string]ugo.Object {
 func c12Run(rc *sim.RunCtx) {
 	t := rc.T
 	n := 2 + t.Draw(7)
+	stride := 0
+	if t.Bool(1, 40) {
+		// more modules than fit into one byte of a module index
+		n = 258 + t.Draw(50)
+		stride = 37
+		rc.Probe("more-than-256-modules")
+	}
 	mods := make([]c12Mod, n)
 	for i := range mods {
 		mods[i].file = t.Bool(1, 4)
@@ -233,6 +249,9 @@ func c12Run(rc *sim.RunCtx) {
 	}
 	// edges only from lower to higher index
 	for i := 0; i < n-1; i++ {
+		if n > 16 && i%16 != 0 {
+			continue // big graphs stay sparse
+		}
 		for k, nd := 0, t.Pick(2, 3, 2, 1); k < nd; k++ {
 			d := i + 1 + t.Draw(n-i-1)
 			dup := false
@@ -300,7 +319,7 @@ func c12Run(rc *sim.RunCtx) {
 	}
 	steps := 4 + t.Draw(27)
 	var topImports []int
-	for i := 0; i < n; i++ {
+	for i := 0; i < n && len(topImports) < 6; i++ {
 		if t.Bool(1, 5) {
 			topImports = append(topImports, i)
 		}
@@ -308,12 +327,12 @@ func c12Run(rc *sim.RunCtx) {
 	if negative != 0 && len(topImports) == 0 {
 		topImports = []int{0}
 	}
-	driver := c12Driver(mods, steps, topImports)
+	driver := c12Driver(mods, steps, topImports, stride)
 
 	// host world
 	spec := &sim.WorldSpec{Name: "w0"}
-	for id := 0; id < 5; id++ {
-		row := make([]int, steps)
+	for id := 0; id < 6; id++ {
+		row := make([]int, steps+len(topImports)+1)
 		for j := range row {
 			row[j] = t.Draw(4)
 		}
@@ -415,7 +434,7 @@ func c12Run(rc *sim.RunCtx) {
 	}
 
 	model := &c12Model{hostCnt: 2, mods: mods, spec: spec, loaded: make([]bool, n), cnt: make([]int, n), mopOcc: make([]int, n), bodies: make([]int, n), chooseN: map[int]int{}}
-	want := model.run(steps, topImports)
+	want := model.run(steps, topImports, stride)
 
 	pool := &sim.SimPool{T: t}
 	restore := pool.Install()
